@@ -224,3 +224,435 @@ Proof.
         apply IH in Hn. discriminate.
       * split; [|reflexivity]. intros _ [H|H]; [exact (E H)|]. revert H. apply IH. reflexivity.
 Qed.
+
+(* ------------------------------------------------------------------ *)
+(* Unfolding equations and boolean range tests                         *)
+(* ------------------------------------------------------------------ *)
+
+Lemma byte_at_eq r i :
+  byte_at r i =
+  if (i <? 0) || (rlen r <=? i) then None else
+  match r with
+  | Owned bs => nth_error bs (Z.to_nat i)
+  | Zeroed _ => Some 0
+  | Slice p off _ => byte_at p (off + i)
+  | Concat l rr _ => if i <? rlen l then byte_at l i else byte_at rr (i - rlen l)
+  | Tiled u _ => byte_at u (i mod rlen u)
+  end.
+Proof. destruct r; reflexivity. Qed.
+
+Lemma range_test_true i L : 0 <= i < L -> (0 <=? i) && (i <? L) = true.
+Proof.
+  intros H. destruct (Z.leb_spec 0 i); destruct (Z.ltb_spec i L); try lia; reflexivity.
+Qed.
+
+Lemma range_test_false i L : ~ (0 <= i < L) -> (0 <=? i) && (i <? L) = false.
+Proof.
+  intros H. destruct (Z.leb_spec 0 i); destruct (Z.ltb_spec i L); try lia; reflexivity.
+Qed.
+
+Lemma out_test_false i L : 0 <= i < L -> (i <? 0) || (L <=? i) = false.
+Proof.
+  intros H. destruct (Z.ltb_spec i 0); destruct (Z.leb_spec L i); try lia; reflexivity.
+Qed.
+
+Lemma out_test_true i L : ~ (0 <= i < L) -> (i <? 0) || (L <=? i) = true.
+Proof.
+  intros H. destruct (Z.ltb_spec i 0); destruct (Z.leb_spec L i); try lia; reflexivity.
+Qed.
+
+(* Z <-> nat decomposition of an index into a tiled list *)
+Lemma tile_index_split (i m : Z) : 0 <= i -> 0 < m ->
+  0 <= i / m /\ 0 <= i mod m < m /\ i = m * (i / m) + i mod m /\
+  Z.to_nat i = (Z.to_nat (i / m) * Z.to_nat m + Z.to_nat (i mod m))%nat.
+Proof.
+  intros Hi Hm.
+  assert (H1 : 0 <= i / m) by (apply Z.div_pos; lia).
+  assert (H2 : 0 <= i mod m < m) by (apply Z.mod_pos_bound; lia).
+  assert (H3 : i = m * (i / m) + i mod m) by (apply Z.div_mod; lia).
+  repeat split; try lia.
+  all: apply Nat2Z.inj; rewrite Nat2Z.inj_add, Nat2Z.inj_mul, !Z2Nat.id by lia; lia.
+Qed.
+
+(* ------------------------------------------------------------------ *)
+(* Length and well-formedness of the denotation                        *)
+(* ------------------------------------------------------------------ *)
+
+Lemma wf_rlen_bound r : wf r -> 0 <= rlen r <= MAX_BINARY_SIZE.
+Proof.
+  induction r as [bs|n|p IHp off len|l IHl rr IHr t|u IHu c]; cbn [wf rlen]; intros H.
+  - lia.
+  - lia.
+  - destruct H as (Hp & H0 & H1 & H2). specialize (IHp Hp). lia.
+  - destruct H as (Hl & Hr & Ht & Hb). specialize (IHl Hl). specialize (IHr Hr). lia.
+  - destruct H as (Hu & Hc & Hl & Hb). split; [|exact Hb]. apply Z.mul_nonneg_nonneg; lia.
+Qed.
+
+Theorem rlen_bytes_of r : wf r -> rlen r = Z.of_nat (length (bytes_of r)).
+Proof.
+  induction r as [bs|n|p IHp off len|l IHl rr IHr t|u IHu c]; cbn [wf rlen bytes_of]; intros H.
+  - reflexivity.
+  - rewrite repeat_length. lia.
+  - destruct H as (Hp & H0 & H1 & H2). specialize (IHp Hp).
+    rewrite firstn_length, skipn_length. lia.
+  - destruct H as (Hl & Hr & Ht & Hb). rewrite app_length, Nat2Z.inj_add, <- IHl, <- IHr by assumption.
+    exact Ht.
+  - destruct H as (Hu & Hc & Hl & Hb). rewrite length_concat_repeat, Nat2Z.inj_mul, <- IHu by assumption.
+    rewrite Z2Nat.id by lia. lia.
+Qed.
+
+Theorem bytes_of_ok r : wf r -> bytes_ok (bytes_of r).
+Proof.
+  unfold bytes_ok.
+  induction r as [bs|n|p IHp off len|l IHl rr IHr t|u IHu c]; cbn [wf bytes_of]; intros H.
+  - exact (proj1 H).
+  - apply Forall_repeat_intro. lia.
+  - apply Forall_firstn_keep, Forall_skipn_keep, IHp, H.
+  - destruct H as (Hl & Hr & _). apply Forall_app; split; auto.
+  - apply Forall_concat_repeat, IHu, H.
+Qed.
+
+(* ------------------------------------------------------------------ *)
+(* byte_at                                                             *)
+(* ------------------------------------------------------------------ *)
+
+Lemma byte_at_out r i : ~ (0 <= i < rlen r) -> byte_at r i = None.
+Proof. intros H. rewrite byte_at_eq, out_test_true by exact H. reflexivity. Qed.
+
+Lemma byte_at_in r : wf r -> forall i, 0 <= i < rlen r ->
+  byte_at r i = nth_error (bytes_of r) (Z.to_nat i).
+Proof.
+  induction r as [bs|n|p IHp off len|l IHl rr IHr t|u IHu c]; intros H i Hi;
+    rewrite byte_at_eq, out_test_false by exact Hi; cbn [wf rlen bytes_of] in *.
+  - reflexivity.
+  - symmetry. apply nth_error_repeat_lt. lia.
+  - destruct H as (Hp & H0 & H1 & H2).
+    rewrite IHp by (try exact Hp; lia).
+    rewrite nth_error_firstn_lt by lia. rewrite nth_error_skipn_add.
+    f_equal. lia.
+  - destruct H as (Hl & Hr & Ht & Hb).
+    pose proof (rlen_bytes_of l Hl) as Ll. pose proof (rlen_bytes_of rr Hr) as Lr.
+    destruct (Z.ltb_spec i (rlen l)) as [Hlt|Hge].
+    + rewrite IHl by (try exact Hl; lia).
+      rewrite nth_error_app1 by lia. reflexivity.
+    + rewrite IHr by (try exact Hr; lia).
+      rewrite nth_error_app2 by lia. f_equal. lia.
+  - destruct H as (Hu & Hc & Hl & Hb).
+    pose proof (rlen_bytes_of u Hu) as Lu.
+    destruct (tile_index_split i (rlen u)) as (Q0 & M0 & Ei & En); [lia|lia|].
+    rewrite IHu by (try exact Hu; lia).
+    rewrite En. replace (Z.to_nat (rlen u)) with (length (bytes_of u)) by lia.
+    rewrite nth_error_concat_repeat; [reflexivity| |lia].
+    assert (i / rlen u < c) by (apply Z.div_lt_upper_bound; lia). lia.
+Qed.
+
+Theorem byte_at_spec r i : wf r ->
+  byte_at r i = if (0 <=? i) && (i <? rlen r) then nth_error (bytes_of r) (Z.to_nat i) else None.
+Proof.
+  intros H. destruct (Z_le_dec 0 i) as [H0|H0]; [destruct (Z_lt_dec i (rlen r)) as [H1|H1]|].
+  - rewrite range_test_true by lia. apply byte_at_in; [exact H|lia].
+  - rewrite range_test_false by lia. apply byte_at_out. lia.
+  - rewrite range_test_false by lia. apply byte_at_out. lia.
+Qed.
+
+Corollary byte_at_in_range r i : wf r -> 0 <= i < rlen r ->
+  exists b, byte_at r i = Some b /\ nth_error (bytes_of r) (Z.to_nat i) = Some b /\ 0 <= b < 256.
+Proof.
+  intros H Hi. rewrite byte_at_spec by exact H. rewrite range_test_true by exact Hi.
+  pose proof (rlen_bytes_of r H) as L.
+  destruct (nth_error (bytes_of r) (Z.to_nat i)) as [b|] eqn:E.
+  - exists b. split; [reflexivity|]. split; [reflexivity|].
+    pose proof (bytes_of_ok r H) as Hok. unfold bytes_ok in Hok.
+    rewrite Forall_forall in Hok. apply Hok. eapply nth_error_In. exact E.
+  - apply nth_error_None in E. lia.
+Qed.
+
+(* ------------------------------------------------------------------ *)
+(* rope_iter                                                           *)
+(* ------------------------------------------------------------------ *)
+
+Lemma iter_from_spec r fuel : forall i, wf r -> 0 <= i -> i + Z.of_nat fuel = rlen r ->
+  iter_from r i fuel = skipn (Z.to_nat i) (bytes_of r).
+Proof.
+  induction fuel as [|f IH]; intros i H Hi Hf; cbn [iter_from].
+  - symmetry. apply skipn_all2. pose proof (rlen_bytes_of r H). lia.
+  - destruct (byte_at_in_range r i H) as (b & Hb & Hn & _); [lia|].
+    rewrite Hb. rewrite (skipn_nth_cons _ _ _ Hn). f_equal.
+    rewrite IH by (try assumption; lia). f_equal. lia.
+Qed.
+
+Theorem rope_iter_spec r : wf r -> rope_iter r = bytes_of r.
+Proof.
+  intros H. unfold rope_iter. pose proof (wf_rlen_bound r H).
+  rewrite iter_from_spec by (try assumption; lia). reflexivity.
+Qed.
+
+(* ------------------------------------------------------------------ *)
+(* find_from: equations mirroring each rope constructor                *)
+(* ------------------------------------------------------------------ *)
+
+Lemma skipn_repeat {A} (x : A) n k : skipn k (repeat x n) = repeat x (n - k).
+Proof.
+  revert k; induction n as [|n IH]; intros [|k]; cbn [repeat skipn Nat.sub]; try reflexivity.
+  apply IH.
+Qed.
+
+Lemma skipn_skipn_add {A} (l : list A) x y : skipn x (skipn y l) = skipn (y + x) l.
+Proof.
+  revert l; induction y as [|y IH]; intros l; [reflexivity|].
+  destruct l as [|a l]; cbn [skipn Nat.add]; [destruct x; reflexivity|apply IH].
+Qed.
+
+Lemma find_from_out b l off : Z.of_nat (length l) <= off -> find_from b l off = None.
+Proof.
+  intros H. unfold find_from. destruct (Z.leb_spec (Z.of_nat (length l)) off); [reflexivity|lia].
+Qed.
+
+Lemma find_from_in b l off : off < Z.of_nat (length l) ->
+  find_from b l off = option_map (fun p => p + off) (list_find b (skipn (Z.to_nat off) l)).
+Proof.
+  intros H. unfold find_from. destruct (Z.leb_spec (Z.of_nat (length l)) off); [lia|reflexivity].
+Qed.
+
+Lemma find_from_0 b l : find_from b l 0 = list_find b l.
+Proof.
+  destruct l as [|x l]; [reflexivity|].
+  rewrite find_from_in by (cbn [length]; lia).
+  change (Z.to_nat 0) with 0%nat. cbn [skipn].
+  destruct (list_find b (x :: l)); cbn [option_map]; [f_equal; lia|reflexivity].
+Qed.
+
+Lemma find_from_repeat0 b n off : 0 <= off ->
+  find_from b (repeat 0 n) off = if (b =? 0) && (off <? Z.of_nat n) then Some off else None.
+Proof.
+  intros Hoff. destruct (Z.ltb_spec off (Z.of_nat n)) as [Hlt|Hge].
+  - rewrite find_from_in by (rewrite repeat_length; lia).
+    rewrite skipn_repeat.
+    destruct (n - Z.to_nat off)%nat as [|k] eqn:E; [lia|].
+    rewrite list_find_repeat_S. rewrite (Z.eqb_sym b 0).
+    destruct (0 =? b); cbn [option_map andb]; [f_equal; lia|reflexivity].
+  - rewrite find_from_out by (rewrite repeat_length; lia).
+    rewrite andb_false_r. reflexivity.
+Qed.
+
+Lemma find_from_slice b l soff len off :
+  0 <= soff -> 0 < len -> soff + len <= Z.of_nat (length l) -> 0 <= off ->
+  find_from b (firstn (Z.to_nat len) (skipn (Z.to_nat soff) l)) off =
+  if len <=? off then None
+  else match find_from b l (soff + off) with
+       | Some a => if a - soff <? len then Some (a - soff) else None
+       | None => None
+       end.
+Proof.
+  intros Hs Hl Hb Hoff.
+  assert (Elen : Z.of_nat (length (firstn (Z.to_nat len) (skipn (Z.to_nat soff) l))) = len).
+  { rewrite firstn_length, skipn_length. lia. }
+  destruct (Z.leb_spec len off) as [Hge|Hlt].
+  - apply find_from_out. lia.
+  - rewrite find_from_in by lia. rewrite find_from_in by lia.
+    rewrite skipn_firstn_comm, skipn_skipn_add.
+    replace (Z.to_nat (soff + off)) with (Z.to_nat soff + Z.to_nat off)%nat by lia.
+    rewrite list_find_firstn.
+    destruct (list_find b (skipn (Z.to_nat soff + Z.to_nat off) l)) as [p|]; cbn [option_map];
+      [|reflexivity].
+    destruct (Z.ltb_spec p (Z.of_nat (Z.to_nat len - Z.to_nat off)));
+      destruct (Z.ltb_spec (p + (soff + off) - soff) len); cbn [option_map]; try lia;
+      [f_equal; lia|reflexivity].
+Qed.
+
+Lemma find_from_app b l1 l2 off : 0 <= off ->
+  find_from b (l1 ++ l2) off =
+  if off <? Z.of_nat (length l1) then
+    match find_from b l1 off with
+    | Some i => Some i
+    | None => option_map (fun i => i + Z.of_nat (length l1)) (find_from b l2 0)
+    end
+  else option_map (fun i => i + Z.of_nat (length l1)) (find_from b l2 (off - Z.of_nat (length l1))).
+Proof.
+  intros Hoff. destruct (Z.ltb_spec off (Z.of_nat (length l1))) as [Hlt|Hge].
+  - rewrite find_from_in by (rewrite app_length; lia).
+    rewrite find_from_in by lia. rewrite find_from_0.
+    rewrite skipn_app. replace (Z.to_nat off - length l1)%nat with 0%nat by lia.
+    cbn [skipn]. rewrite list_find_app.
+    destruct (list_find b (skipn (Z.to_nat off) l1)) as [p|]; cbn [option_map]; [reflexivity|].
+    rewrite skipn_length.
+    destruct (list_find b l2) as [p|]; cbn [option_map]; [f_equal; lia|reflexivity].
+  - destruct (Z_le_dec (Z.of_nat (length l1) + Z.of_nat (length l2)) off) as [Hout|Hin].
+    + rewrite find_from_out by (rewrite app_length; lia).
+      rewrite find_from_out by lia. reflexivity.
+    + rewrite find_from_in by (rewrite app_length; lia).
+      rewrite find_from_in by lia.
+      rewrite skipn_app. rewrite (skipn_all2 l1) by lia. cbn [app].
+      replace (Z.to_nat (off - Z.of_nat (length l1))) with (Z.to_nat off - length l1)%nat by lia.
+      destruct (list_find b (skipn (Z.to_nat off - length l1) l2)) as [p|]; cbn [option_map];
+        [f_equal; lia|reflexivity].
+Qed.
+
+Lemma find_from_tiled b u c off :
+  0 < Z.of_nat (length u) -> 0 <= c -> 0 <= off ->
+  find_from b (concat (repeat u (Z.to_nat c))) off =
+  if (Z.of_nat (length u) =? 0) || (Z.of_nat (length u) * c <=? off) then None
+  else match find_from b u (off mod Z.of_nat (length u)) with
+       | Some p => Some (off / Z.of_nat (length u) * Z.of_nat (length u) + p)
+       | None =>
+           if off / Z.of_nat (length u) + 1 <? c then
+             match find_from b u 0 with
+             | Some p => Some ((off / Z.of_nat (length u) + 1) * Z.of_nat (length u) + p)
+             | None => None
+             end
+           else None
+       end.
+Proof.
+  intros Hm Hc Hoff. set (m := Z.of_nat (length u)) in *.
+  assert (Elen : Z.of_nat (length (concat (repeat u (Z.to_nat c)))) = m * c).
+  { rewrite length_concat_repeat, Nat2Z.inj_mul, Z2Nat.id by lia. fold m. lia. }
+  destruct (Z.eqb_spec m 0) as [E0|_]; [lia|]. cbn [orb].
+  destruct (Z.leb_spec (m * c) off) as [Hout|Hin].
+  - apply find_from_out. lia.
+  - destruct (tile_index_split off m Hoff Hm) as (Q0 & M0 & Eo & En).
+    assert (Qc : off / m < c) by (apply Z.div_lt_upper_bound; lia).
+    set (su := off / m) in *. set (o := off mod m) in *.
+    rewrite find_from_in by lia. rewrite (find_from_in b u o) by (fold m; lia).
+    rewrite find_from_0.
+    rewrite En. replace (Z.to_nat m) with (length u) by (subst m; lia).
+    rewrite skipn_concat_repeat by (subst m; lia).
+    rewrite list_find_app.
+    destruct (list_find b (skipn (Z.to_nat o) u)) as [p|]; cbn [option_map];
+      [f_equal; lia|].
+    rewrite skipn_length.
+    destruct (Z.ltb_spec (su + 1) c) as [Hmore|Hlast].
+    + destruct (Z.to_nat c - Z.to_nat su - 1)%nat as [|k] eqn:Ek; [lia|].
+      destruct (list_find b u) as [p|] eqn:Eu.
+      * rewrite (list_find_concat_repeat_some _ _ _ _ Eu). cbn [option_map].
+        f_equal. subst m. lia.
+      * rewrite (list_find_concat_repeat_none _ _ _ Eu). reflexivity.
+    + replace (Z.to_nat c - Z.to_nat su - 1)%nat with 0%nat by lia. reflexivity.
+Qed.
+
+(* ------------------------------------------------------------------ *)
+(* find_byte                                                           *)
+(* ------------------------------------------------------------------ *)
+
+Theorem find_byte_spec r b off : wf r -> 0 <= off -> find_byte r b off = find_from b (bytes_of r) off.
+Proof.
+  revert off.
+  induction r as [bs|n|p IHp soff len|l IHl rr IHr t|u IHu c]; intros off H Hoff;
+    cbn [find_byte wf bytes_of] in *.
+  - reflexivity.
+  - rewrite find_from_repeat0 by exact Hoff. rewrite Z2Nat.id by lia. reflexivity.
+  - destruct H as (Hp & H0 & H1 & H2).
+    rewrite IHp by (try exact Hp; lia).
+    rewrite find_from_slice by (try rewrite <- rlen_bytes_of by exact Hp; lia).
+    reflexivity.
+  - destruct H as (Hl & Hr & Ht & Hb). cbv zeta.
+    pose proof (wf_rlen_bound l Hl) as Bl.
+    rewrite find_from_app by exact Hoff. rewrite <- rlen_bytes_of by exact Hl.
+    destruct (Z.ltb_spec off (rlen l)) as [Hlt|Hge].
+    + rewrite IHl by (try exact Hl; lia). rewrite IHr by (try exact Hr; lia). reflexivity.
+    + rewrite IHr by (try exact Hr; lia). reflexivity.
+  - destruct H as (Hu & Hc & Hl & Hb). cbv zeta.
+    pose proof (rlen_bytes_of u Hu) as Lu.
+    assert (Hmod : 0 <= off mod rlen u < rlen u) by (apply Z.mod_pos_bound; lia).
+    rewrite !IHu by (try exact Hu; lia).
+    rewrite find_from_tiled by lia. rewrite <- Lu. reflexivity.
+Qed.
+
+(* ------------------------------------------------------------------ *)
+(* Smart constructors                                                  *)
+(* ------------------------------------------------------------------ *)
+
+Theorem mk_concat_wf l r : wf l -> wf r -> rlen l + rlen r <= MAX_BINARY_SIZE -> wf (mk_concat l r).
+Proof.
+  intros Hl Hr Hb. unfold mk_concat. cbn [wf]. repeat split; try assumption.
+Qed.
+
+Theorem mk_concat_bytes l r : bytes_of (mk_concat l r) = bytes_of l ++ bytes_of r.
+Proof. reflexivity. Qed.
+
+Theorem mk_slice_some p off len : wf p -> 0 <= off -> 0 <= len -> off + len <= rlen p ->
+  exists s, mk_slice p off len = Some s /\ wf s /\
+            bytes_of s = firstn (Z.to_nat len) (skipn (Z.to_nat off) (bytes_of p)).
+Proof.
+  intros Hp Hoff Hlen Hb. unfold mk_slice.
+  destruct (Z.ltb_spec (rlen p) off) as [C1|C1]; [lia|].
+  destruct (Z.ltb_spec (rlen p) (off + len)) as [C2|C2]; [lia|]. cbn [orb].
+  destruct (Z.eqb_spec len 0) as [E0|N0].
+  - exists (Owned []). split; [reflexivity|]. split.
+    + cbn [wf length]. split; [constructor|]. unfold MAX_BINARY_SIZE. lia.
+    + subst len. reflexivity.
+  - destruct (Z.eqb_spec off 0) as [Eo|No]; [destruct (Z.eqb_spec len (rlen p)) as [El|Nl]|];
+      cbn [andb].
+    + exists p. split; [reflexivity|]. split; [exact Hp|].
+      subst off. change (Z.to_nat 0) with 0%nat. cbn [skipn].
+      rewrite firstn_all2; [reflexivity|]. pose proof (rlen_bytes_of p Hp). lia.
+    + exists (Slice p off len). split; [reflexivity|]. split; [|reflexivity].
+      cbn [wf]. repeat split; try assumption; lia.
+    + exists (Slice p off len). split; [reflexivity|]. split; [|reflexivity].
+      cbn [wf]. repeat split; try assumption; lia.
+Qed.
+
+Theorem mk_slice_none p off len : wf p -> 0 <= off -> 0 <= len -> rlen p < off + len -> mk_slice p off len = None.
+Proof.
+  intros Hp Hoff Hlen Hb. unfold mk_slice.
+  destruct (Z.ltb_spec (rlen p) (off + len)) as [C2|C2]; [|lia].
+  rewrite orb_true_r. reflexivity.
+Qed.
+
+Theorem mk_tiled_wf u c : wf u -> 0 <= c -> rlen u * c <= MAX_BINARY_SIZE -> wf (mk_tiled u c).
+Proof.
+  intros Hu Hc Hb. unfold mk_tiled. pose proof (wf_rlen_bound u Hu) as Bu.
+  destruct (Z.eqb_spec c 0) as [E0|N0]; [|destruct (Z.eqb_spec (rlen u) 0) as [El|Nl]]; cbn [orb].
+  - cbn [wf length]. split; [constructor|]. unfold MAX_BINARY_SIZE. lia.
+  - cbn [wf length]. split; [constructor|]. unfold MAX_BINARY_SIZE. lia.
+  - destruct (Z.eqb_spec c 1) as [E1|N1]; [exact Hu|].
+    cbn [wf]. repeat split; try assumption; lia.
+Qed.
+
+Theorem mk_tiled_bytes u c : wf u -> 0 <= c -> bytes_of (mk_tiled u c) = concat (repeat (bytes_of u) (Z.to_nat c)).
+Proof.
+  intros Hu Hc. unfold mk_tiled. pose proof (rlen_bytes_of u Hu) as Lu.
+  destruct (Z.eqb_spec c 0) as [E0|N0]; [|destruct (Z.eqb_spec (rlen u) 0) as [El|Nl]]; cbn [orb].
+  - subst c. reflexivity.
+  - assert (En : bytes_of u = []) by (apply length_zero_iff_nil; lia).
+    rewrite En, concat_repeat_nil. reflexivity.
+  - destruct (Z.eqb_spec c 1) as [E1|N1]; [|reflexivity].
+    subst c. change (Z.to_nat 1) with 1%nat. cbn [repeat concat]. rewrite app_nil_r. reflexivity.
+Qed.
+
+(* ------------------------------------------------------------------ *)
+(* Shape independence                                                  *)
+(* ------------------------------------------------------------------ *)
+
+(* anything computed through the rope interface depends only on the denotation *)
+Theorem shape_independent r1 r2 : wf r1 -> wf r2 -> bytes_of r1 = bytes_of r2 ->
+  rlen r1 = rlen r2 /\ (forall i, byte_at r1 i = byte_at r2 i) /\ rope_iter r1 = rope_iter r2 /\
+  (forall b off, 0 <= off -> find_byte r1 b off = find_byte r2 b off) /\
+  (forall off len, 0 <= off -> 0 <= len ->
+     option_map bytes_of (mk_slice r1 off len) = option_map bytes_of (mk_slice r2 off len)) /\
+  (forall c, 0 <= c -> bytes_of (mk_tiled r1 c) = bytes_of (mk_tiled r2 c)) /\
+  (forall r3, bytes_of (mk_concat r1 r3) = bytes_of (mk_concat r2 r3) /\ bytes_of (mk_concat r3 r1) = bytes_of (mk_concat r3 r2)).
+Proof.
+  intros H1 H2 E.
+  assert (El : rlen r1 = rlen r2).
+  { rewrite (rlen_bytes_of r1 H1), (rlen_bytes_of r2 H2), E. reflexivity. }
+  split; [exact El|].
+  split; [intros i; rewrite !byte_at_spec by assumption; rewrite El, E; reflexivity|].
+  split; [rewrite !rope_iter_spec by assumption; exact E|].
+  split; [intros b off Hoff; rewrite !find_byte_spec by assumption; rewrite E; reflexivity|].
+  split.
+  { intros off len Hoff Hlen. destruct (Z_le_dec (off + len) (rlen r1)) as [Hin|Hout].
+    - destruct (mk_slice_some r1 off len H1 Hoff Hlen Hin) as (s1 & -> & _ & B1).
+      destruct (mk_slice_some r2 off len H2 Hoff Hlen) as (s2 & -> & _ & B2); [lia|].
+      cbn [option_map]. rewrite B1, B2, E. reflexivity.
+    - rewrite (mk_slice_none r1 off len) by (try assumption; lia).
+      rewrite (mk_slice_none r2 off len) by (try assumption; lia). reflexivity. }
+  split; [intros c Hc; rewrite !mk_tiled_bytes by assumption; rewrite E; reflexivity|].
+  intros r3. rewrite !mk_concat_bytes, E. split; reflexivity.
+Qed.
+
+(* non-vacuity: a concrete rope using all five constructors is wf *)
+Example wf_example : wf (Concat (Slice (Owned [1;2;3;4;5]) 1 3) (Tiled (Concat (Zeroed 2) (Owned [255]) 3) 4) 15).
+Proof.
+  cbn [wf rlen length]. unfold bytes_ok, MAX_BINARY_SIZE.
+  repeat split; try lia; repeat constructor; lia.
+Qed.
